@@ -27,7 +27,8 @@ META = {
         'impl ⊆ envelope on the regular abstraction (sound: the abstraction over-approximates the reader), witnesses '
         're-validated under pyparsing\'s commitment semantics: tag names, strings/URIs (unterminated or illegally escaped '
         'text cannot be accepted), lists/dicts/nested grids inside their brackets, no 3.0-only alternative in the 2.0 '
-        'alternation, anchored version regex.  (D5) every piece of a multi-grid document is parsed on every returning path of parser.parse (path enumeration; `single` only selects from the parsed list).  (D6) no regex applied to the text on the ZINC path has a repeat with an iteration-ambiguous body (exponential backtracking).  Also (D4): version.VERSION_RE accepts only texts starting with a digit; (D3) no grammar element reachable from the scalar alternations uses pyparsing\'s error stop (`-`) unless parse_scalar converts ParseFatalException.  Not decided: termination of the grammar recursion; that line/col lie within the text.'),
+        'alternation, anchored version regex.  (D5) every piece of a multi-grid document is parsed on every returning path of parser.parse (path enumeration; `single` only selects from the parsed list).  (D6) no regex applied to the text on the ZINC path has a repeat with an iteration-ambiguous body (exponential backtracking).  Also (D4): version.VERSION_RE accepts only texts starting with a digit; (D3) no grammar element reachable from the scalar alternations uses pyparsing\'s error stop (`-`) unless parse_scalar converts ParseFatalException.  Not decided: termination of the grammar recursion; that line/col lie within the text.'
+        ' Also (D3): iso8601.parse_date is not told default_timezone=None (the naive-stamp branch of _parse_datetime calls a method pytz does not have).  (D4) Grid.__init__ hands every version other than None to Version() -- decision table of the guard over None, the empty text, 2.0 -- the only check a nested grid header gets.'),
     'rule_text': 'obligations = wrapper facts, calls inside handlers x may-raise table, parse actions x may-raise table, '
                  'envelopes',
     'trusted_base': ['spec/may_raise.json (library exception facts); logging calls do not raise'],
@@ -54,6 +55,111 @@ def run(ctx):
     _grid.extend_own(ctx, _grid.grid_methods(ctx), 'C09.D4', want=('validate',))
     _regex_termination(ctx)
     _error_stops(ctx)
+    _naive_stamps(ctx)
+    _nested_version(ctx)
+
+
+def _nested_version(ctx):
+    """(D4) the header of a NESTED grid (`<<ver:"..." ...>>`) is not sniffed by VERSION_RE: its text reaches
+    Grid(version=<text>) as it is, and the only thing that rejects a malformed one is Version(<text>) in
+    Grid.__init__.  So every version other than None must be handed to Version() -- the empty text included."""
+    from .. import minieval
+    from .c17 import _guards
+    m = ctx.model
+    FG = 'hszinc/grid.py'
+    try:
+        init = m.func('grid', 'Grid.__init__', 'nested')
+    except AnalysisError as e:
+        ctx.error('C09.D4', str(e))
+        return
+    a = [x.arg for x in init.args.args]
+    if len(a) < 2:
+        ctx.error('C09.D4', 'Grid.__init__ signature changed')
+        return
+    vp = a[1]
+    convs = [st for st in ast.walk(init) if isinstance(st, ast.Assign) and isinstance(st.value, ast.Call)
+             and norm(st.value.func) == 'Version' and len(st.value.args) == 1 and norm(st.value.args[0]) == vp]
+    if len(convs) != 1:
+        ctx.error('C09.D4', 'Grid.__init__: %d conversions Version(%s); cannot decide' % (len(convs), vp))
+        return
+    conv = convs[0]
+    # single-assignment flags set before the conversion from the parameter alone
+    flags = {}
+    for st in body_wo_doc(init):
+        if st is conv:
+            break
+        if isinstance(st, ast.Assign) and len(st.targets) == 1 and isinstance(st.targets[0], ast.Name):
+            flags[st.targets[0].id] = st.value
+    reached = {}
+    try:
+        for v in (None, '', '2.0'):
+            env = {vp: v}
+            for name, e in flags.items():
+                try:
+                    env[name] = minieval.ev(e, env)
+                except minieval.Undecided:
+                    pass
+            ok = True
+            for t, pol in _guards(init, conv):
+                if bool(minieval.ev(t, env)) != pol:
+                    ok = False
+            reached[v] = ok
+    except minieval.Undecided as e:
+        ctx.error('C09.D4', 'Grid.__init__: guard of Version(%s) not decidable (%s)' % (vp, e))
+        return
+    where = '%s:%d' % (FG, conv.lineno)
+    if reached[''] and reached['2.0']:
+        ctx.ob('C09.D4', 'Grid.__init__ hands every version other than None to Version() (decision table over None, \'\', \'2.0\'): '
+                         'a nested header with a malformed version is rejected there', True, where)
+    else:
+        lost = '' if not reached[''] else '2.0'
+        ctx.violation('C09.D4', '%s::Grid.__init__' % FG, '; '.join(norm(t) for t, _ in _guards(init, conv)) or norm(conv),
+                      'parse(\'ver:"3.0"\\nsub\\n<<ver:"%s"\\nval\\n1\\n>>\\n\'): the nested header\'s version text %r never reaches '
+                      'Version(), the nested grid is built as an unversioned 2.0 grid and the document is accepted' % (lost, lost),
+                      'Grid.__init__ calls Version(%s) only when its guard is true, and the guard is false for %r -- the only '
+                      'check a nested version header gets' % (vp, lost), file=FG, line=conv.lineno, engine='E7')
+
+
+PYTZ_API = {'localize', 'normalize', 'utcoffset', 'dst', 'tzname', 'fromutc', 'zone'}
+
+
+def _naive_stamps(ctx):
+    """(D3) iso8601.parse_date gives an AWARE stamp (its default zone is UTC) unless it is told default_timezone=None.
+    _parse_datetime has a branch for naive stamps; what it calls on the zone object must exist in pytz, or the
+    AttributeError leaves parse_scalar.  With aware stamps only, that branch is dead and says nothing."""
+    m = ctx.model
+    mod = m.mod('zincparser')
+    calls = [c for c in ast.walk(mod.tree) if isinstance(c, ast.Call) and norm(c.func) in ('iso8601.parse_date', 'parse_date')]
+    ctx.count('iso8601.parse_date calls in zincparser', len(calls))
+    naive = [c for c in calls if any(k.arg == 'default_timezone' and norm(k.value) == 'None' for k in c.keywords)
+             or (len(c.args) > 1 and norm(c.args[1]) == 'None')]
+    other = [c for c in calls if c not in naive and (any(k.arg == 'default_timezone' for k in c.keywords) or len(c.args) > 1)]
+    for c in other:
+        ctx.error('C09.D3', 'iso8601.parse_date called with a default zone `%s`; cannot decide' % norm(c)[:60])
+    if not naive:
+        ctx.ob('C09.D3', 'every iso8601.parse_date call leaves the default zone alone: parsed stamps are aware, the naive-stamp '
+                         'branch of _parse_datetime is never taken', True, FP)
+        return
+    try:
+        fn = m.func('zincparser', '_parse_datetime', 'nested')
+    except AnalysisError as e:
+        ctx.error('C09.D3', str(e))
+        return
+    bad = []
+    for c in ast.walk(fn):
+        if isinstance(c, ast.Call) and isinstance(c.func, ast.Attribute) and isinstance(c.func.value, ast.Call) \
+                and norm(c.func.value.func) == 'timezone' and c.func.attr not in PYTZ_API:
+            bad.append(c)
+    if bad:
+        c = bad[0]
+        ctx.violation('C09.D3', '%s::_parse_datetime' % FP, norm(c),
+                      "parse_scalar('2020-01-01T00:00:00 UTC') (a stamp without offset but with a zone name): the stamp is "
+                      'parsed naive (default_timezone=None), the naive branch calls %s on a pytz zone, which has no such method '
+                      '-- AttributeError leaves parse_scalar' % c.func.attr,
+                      'iso8601.parse_date(..., default_timezone=None) makes the naive-stamp branch live; it calls `.%s`, not part '
+                      'of the pytz zone API (%s)' % (c.func.attr, ', '.join(sorted(PYTZ_API))), file=FP, line=c.lineno, engine='E9')
+    else:
+        ctx.ob('C09.D3', 'naive stamps are possible; the naive branch only uses the pytz zone API', True, FP)
 
 
 def _error_stops(ctx):
